@@ -211,11 +211,20 @@ def main():
                 f"{f['status']}: {f['line'][:120]}" for f in selftest['failures'][:5])))
             if exit_code == 0:
                 exit_code = 3
+    seeded_res = None
+    if tier == 'thorough' and not os.environ.get('VERIF_REPO'):
+        from pyvc import seeded as sd
+        seeded_res = sd.run_for_property(a.prop)
+        if seeded_res.get('failures'):
+            errors.append(('seeded-changes', None, 'seeded change no longer caught: ' + ', '.join(f['seed'] for f in seeded_res['failures'])))
+            if exit_code == 0:
+                exit_code = 3
     coverage = {
         # obligations claimed = all obligations generated minus the ones recorded as known findings (listed below)
         'obligations': n_obl - len(known), 'discharged': n_dis,
         'obligations_generated': n_obl,
         'mutation_selftest': selftest,
+        'seeded_changes': seeded_res,
         'refuted_known_findings': len(known), 'refuted_new': len(new), 'undecided': len(undecided),
         'checker_cmd': f'./check {a.prop} --tier {tier}',
         'trusted_base': ['pyvc VC generator (own code, /verif/pyvc) and the Python semantics list of DESIGN.md 1.3',
